@@ -106,7 +106,7 @@ Proof. intros {vars} Hpath. unfold {T}_path in Hpath; rops. path_facts Hpath. un
             imports=_LIMPORTS))
     BIS = ("cbv [bisect existsb negb Nat.ltb Nat.leb length pl_segments pv pclosed zip app map last edge_end andb orb Nat.eqb nth_error "
            "seg_mid insert_multi_from points_at filter fst snd count_le inserted_pos combine firstn seq Nat.add Nat.sub group3 "
-           "vdivs vadd vzero vx vy vz n0 n1 n2]; rops")
+           "vdivs vadd vzero vx vy vz n0 n1 n2 nfrac]; rops")
     for name, closed, idx, orig, ins in (("bisect_open_one", False, [1], [0, 1, 3], [2]),
                                          ("bisect_closed_two", True, [2, 0], [1, 3, 4], [0, 2])):
         nats = lambda l: "[%s]" % "; ".join("%d%%nat" % i for i in l)
@@ -117,7 +117,12 @@ Proof. intros {vars} Hpath. unfold {T}_path in Hpath; rops. path_facts Hpath. un
             """Lemma {T}_ok : forall {vars} : R,
   bisect ROps %s %s = Ok (MkPolyline (group3 ({T} ROps {vars})) %s, %s, %s).
 Proof. intros. unfold {T}. %s.
-  do 3 f_equal; try (list_eq ltac:(apply V3_ext; first [reflexivity | ring | field])). Qed.""" % (
+  repeat match goal with
+         | |- Ok _ = Ok _ => f_equal
+         | |- (_, _) = (_, _) => f_equal
+         | |- MkPolyline _ _ = MkPolyline _ _ => f_equal
+         end; try reflexivity;
+  list_eq ltac:(first [reflexivity | apply V3_ext; first [reflexivity | ring | field]]). Qed.""" % (
                 _PL(3, closed), nats(idx), "true" if closed else "false", nats(orig), nats(ins), BIS),
             imports=_LIMPORTS,
             expect_structure={"tuple": [{"shape": [3 + len(idx), 3], "data": ["e"] * (3 * (3 + len(idx)))},
